@@ -297,6 +297,51 @@ func multiNIC(lo, hi int) {
 			}
 			run.Count("udp_datagrams_checked", 1)
 		}
+		// a connected UDP socket: plain writes go to the connected peer, sendto overrides
+		// address and port (same host / other port, other host, exactly the peer)
+		{
+			epc, _ := s.NewEndpoint(udp.ProtocolNumber, ipv4.ProtocolNumber, &waiter.Queue{})
+			epc.Bind(tcpip.FullAddress{Port: 5002}, nil)
+			peer := tcpip.FullAddress{Addr: tcpip.Address([]byte{10, 1, 0, 9}), Port: uint16(2000 + r.Intn(1000))}
+			if e := epc.Connect(peer); e == nil {
+				for i := 0; i < 8; i++ {
+					to := peer
+					var opts tcpip.WriteOptions
+					switch r.Intn(4) {
+					case 0: // plain write
+					case 1:
+						to.Port = uint16(3000 + r.Intn(1000))
+						opts.To = &to
+					case 2:
+						to.Addr = tcpip.Address([]byte{10, 1, 0, byte(10 + r.Intn(50))})
+						to.Port = uint16(3000 + r.Intn(1000))
+						opts.To = &to
+					case 3:
+						opts.To = &to
+					}
+					mu.Lock()
+					out = out[:0]
+					mu.Unlock()
+					payload := r.Bytes(1 + r.Intn(40))
+					if _, _, werr := epc.Write(tcpip.SlicePayload(payload), opts); werr != nil {
+						continue
+					}
+					mu.Lock()
+					got := append([]emitted(nil), out...)
+					mu.Unlock()
+					if len(got) != 1 || !bytes.Equal(got[0].in.Dst4[:], []byte(to.Addr)) || got[0].in.DstPort != to.Port || got[0].in.SrcPort != 5002 {
+						d := "nothing"
+						if len(got) > 0 {
+							d = fmt.Sprintf("%v:%d from port %d", got[0].in.Dst4, got[0].in.DstPort, got[0].in.SrcPort)
+						}
+						run.Violation("C06/connected-udp/addressing", fmt.Sprintf("socket connected to %v:%d, write addressed to %v:%d (sendto=%v): emitted %s", []byte(peer.Addr), peer.Port, []byte(to.Addr), to.Port, opts.To != nil, d), map[string]interface{}{"k": k})
+						break
+					}
+					run.Count("connected_udp_writes_checked", 1)
+				}
+			}
+			epc.Close()
+		}
 		// echo requests to each NIC address: replies must leave from the pinged address
 		for i, n := range nics {
 			for _, plen := range []int{0, 1, 7, 64, 1001} {
